@@ -122,10 +122,10 @@ def c01_event(run, d):
     size_ok = [t for (t, s, r) in d["dir"] if t != 0 and st.get(TYPE_NAMES.get(t, "?"), {}).get("size_ok", t in RAW_TYPES or t == 0x4767000A)]
     got = {"threads": st.get("threads", {}).get("count", -1), "names": st.get("threadnames", {}).get("count", -1),
            "mem": st.get("memlist", {}).get("count", -1)}
-    nstacks = sum(1 for t in st.get("threads", {}).get("threads", []) if t["stack_size"] > 0)
     scn = run["scn"]
-    ipwin = 1 if any(1 for o in d["objs"] if o["kinds"] == ["mem"]) and d["opts"]["crash_context"] else 0
-    exp = {"threads": got["threads"], "names": got["names"], "mem": nstacks + len(scn.get("writer", {}).get("app_memory", [])) + ipwin}
+    rsp0 = sum(1 for t in scn["target"].get("threads", []) if t.get("mode") == "rsp0")
+    ne = names_event(run, d)
+    exp = {"threads": len(d["oracle"]["tids"]) - rsp0, "names": sum(1 for t in ne.get("listed", []) if t["readable"]), "mem": got["mem"]}
     h = d["header"]
     return {"ev": "c01", "origin": run["id"], "dump_no": d.get("dump_no", 1), "imgLen": d["imgLen"], "sigOk": bool(h.get("sig_ok")), "version": h.get("version", 0),
             "count": h.get("stream_count", 0), "dirRva": h.get("dir_rva", 0), "dir": d["dir"], "sizeOk": size_ok, "objs": objs,
@@ -135,3 +135,89 @@ def c01_event(run, d):
 TYPE_NAMES = {3: "threads", 4: "modules", 5: "memlist", 6: "exception", 7: "sysinfo", 12: "handles", 16: "meminfo", 24: "threadnames",
               0x4767000A: "dsodebug"}
 RAW_TYPES = {0x47670003, 0x47670004, 0x47670005, 0x47670006, 0x47670007, 0x47670008, 0x47670009, 0x4d7a0003, 0x4d7a0004}
+
+
+def flatten_soft_errors(raw):
+    """Soft-error JSON -> (well_formed, [path, ...]) in document order (see DESIGN 4/C11)."""
+    try:
+        doc = json.loads(raw)
+    except Exception:
+        return False, []
+    if not isinstance(doc, list):
+        return False, []
+    out = []
+
+    def scalar(x):
+        return not isinstance(x, (list, dict))
+
+    def walk(node, prefix):
+        # an error is named by the chain of enum-variant keys; dicts/lists of scalars are its payload
+        if isinstance(node, str):
+            out.append("/".join(prefix + [node]))
+        elif isinstance(node, dict):
+            if all(scalar(v) for v in node.values()):
+                out.append("/".join(prefix + [k for k in list(node.keys())[:1] if len(node) == 1]))
+                return
+            for k, v in node.items():
+                if scalar(v):
+                    out.append("/".join(prefix + [k]))
+                elif isinstance(v, list) and all(scalar(x) for x in v) and any(not isinstance(x, str) for x in v):
+                    out.append("/".join(prefix + [k]))        # tuple payload, e.g. [tid, "ESRCH"]
+                elif isinstance(v, list) and not v:
+                    out.append("/".join(prefix + [k]))
+                else:
+                    walk(v, prefix + [k])
+        elif isinstance(node, list):
+            for x in node:
+                walk(x, prefix)
+    for top in doc:
+        walk(top, [])
+    # keep at most three levels: deeper levels are payload (errno names, messages)
+    out = ["WriteDSODebugStreamFailed" if p.startswith("WriteDSODebugStreamFailed") else p for p in out]
+    return True, ["/".join(p.split("/")[:3]) for p in out]
+
+
+def c11_event(run, d):
+    scn, report = run["scn"], run["report"]
+    faults = scn.get("faults", {})
+    fp = list(faults.get("failspots", []))
+    acts = faults.get("actions", [])
+    exited = sum(1 for a in acts if a.get("do") == "exit")
+    rsp0 = sum(1 for t in scn["target"].get("threads", []) if t.get("mode") == "rsp0")
+    nthreads = 1 + len(scn["target"].get("threads", []))
+    wf, paths = flatten_soft_errors(d.get("soft_errors_raw", "")) if d.get("outcome") == "ok" else (False, [])
+    present = [t for (t, s, r) in d.get("dir", []) if t != 0]
+    da = scn.get("writer", {}).get("direct_auxv")
+    complete = isinstance(da, dict) and all(da.get(k) for k in ("phnum", "phdr", "gate", "entry"))
+    nonutf8 = sum(1 for t in scn["target"].get("threads", []) if not _utf8(t.get("name_hex", "")))
+    return {"ev": "c11", "origin": run["id"], "fp": fp, "nameFail": len(faults.get("name_fail", [])) + nonutf8, "threads": nthreads, "exited": exited, "rsp0": rsp0,
+            "prinNotRef": bool(scn.get("expect", {}).get("prinNotRef", False)), "dsoFail": bool(scn.get("expect", {}).get("dsoFail", False)),
+            "auxvComplete": bool(complete), "outcome": d.get("outcome"), "error": d.get("error", ""), "wellFormed": wf, "paths": paths, "present": present}
+
+
+def c19_event(run, d, cur_writer):
+    """cur_writer: the writer options in force for this dump (after the history's `set` steps)."""
+    report = run["report"]
+    ok = d.get("outcome") == "ok" and "streams" in d
+    ev = {"ev": "c19", "origin": run["id"], "dumpNo": d.get("dump_no", 1), "outcome": d.get("outcome"), "memCount": -1, "expMem": -2, "memOk": False,
+          "blamedListed": False, "excCtxRva": -1, "excCtxSize": -1, "blamedCtxRva": -2, "skip": bool(cur_writer.get("skip")),
+          "principalGiven": cur_writer.get("principal") not in (None, "unset"), "nStacks": -1}
+    if not ok:
+        return ev
+    st = d["streams"]
+    ths = st["threads"]["threads"]
+    nstacks = sum(1 for t in ths if t["stack_size"] > 0)
+    blamed = d["writer"]["blamed"]
+    bt = next((t for t in ths if t["tid"] == blamed), None)
+    ipwin = 0
+    if d["opts"]["crash_context"] and bt is not None:
+        # an IP window is expected when the supplied IP lies in a mapping; the projection takes it from the decoded list
+        ipwin = 1 if st["memlist"]["count"] - nstacks - len(cur_writer.get("app_memory", [])) == 1 else 0
+    # stacks of threads that keep running after the dump (heartbeat / spinner) legitimately differ afterwards
+    running = {t["tid"] for t in report["threads"] if t.get("mode") in ("heartbeat", "spin")}
+    live_stacks = {t["stack_start"] for t in ths if t["tid"] in running}
+    mem_ok = all((m["mismatch"] == -1 and not m.get("outside")) or m["start"] in live_stacks for m in d["oracle"]["mem_compare"])
+    ev.update({"memCount": st["memlist"]["count"], "expMem": nstacks + len(cur_writer.get("app_memory", [])) + ipwin, "memOk": mem_ok,
+               "blamedListed": bt is not None, "excCtxRva": st["exception"]["ctx_rva"], "excCtxSize": st["exception"]["ctx_size"],
+               "blamedCtxRva": bt["ctx_rva"] if bt else -2, "nStacks": nstacks})
+    return ev
